@@ -14,7 +14,7 @@ CHECKS = {
 "C04": ("exploration", "Files rendered from an abstract specification together with their ground truth (prose words and their char offsets; non-prose regions filled from a disjoint sentinel vocabulary incl. multi-byte text) for all 22 comment languages (every comment style, ignore markers, indentation, CRLF) and for Markdown, HTML, Literate Haskell, git-commit and Typst; oracle: the multiset of (offset, text) of Word tokens equals the prose-word list exactly and no lintable token lies in a non-prose region; each file is checked bare, with the server's identifier-collapsing wrapper, and with the front-end chosen from the file name (the harper-cli path).",
         "Per-language code templates are syntactically valid by construction; Typst string literals are treated as prose except in the positional arguments harper-typst skips (lenient reading). One open known finding (Ruby =begin/=end).",
         "property-based testing (proptest) with a constructive ground-truth oracle"),
-"C05": ("exploration", "Stateful: op sequences (SetConfig | Lint(doc, language)) on one long-lived LintGroup over a pool in which clause characters recur at other offsets / languages / configs; after every Lint the result must equal that of a freshly built linter. Plus 8 threads vs sequential, a linter moved across threads, two fresh processes byte-identical, LRU-eviction run (thorough); dictionary_change_detection: merged dictionaries that compare equal (the test on which harper-ls keeps its linter) must lint alike.",
+"C05": ("exploration", "Stateful: op sequences (SetConfig | Lint(doc, language)) on one long-lived LintGroup over a pool in which clause characters recur at other offsets / languages / configs; after every Lint the result must equal that of a freshly built linter. Plus 8 threads vs sequential, a linter moved across threads, two fresh processes byte-identical, LRU-eviction run (thorough); dictionary_change_detection: merged dictionaries that compare equal (the test on which harper-ls keeps its linter) must lint alike, and a thread that parsed with one dictionary and then with another of the same size reports what a fresh thread reports.",
         "Differential against LintGroup::new_curated(..).with_lint_config(current) on the same Document.",
         "model-based / differential property testing over operation histories (proptest vec(op) + interpreter)"),
 "C06": ("exploration", "Every entry of the curated dictionary x 4 dialects enumerated alone (re-cased forms too), random entries inside sentence frames; conversely generated non-words must get exactly one Spelling lint with the exact span and only dictionary suggestions of the active dialect; every dialect-tagged entry alone vs inside noun-phrase frames (verdict independent of neighbours, exhaustive); user words merged with the curated dictionary are never reported in their listed capitalisation. Ground truth = the dictionary's own word list.",
@@ -32,7 +32,7 @@ CHECKS = {
 "C10": ("exploration", "Invariant over strace -f syscall histories of generated harper-ls sessions (every notification and command except HarperOpen, incl. dictionary saves and the statistics write at shutdown; documents with non-local URIs and with absolute paths of 150-400 bytes; a user dictionary that is a relative symbolic link; dictionary paths changed silently by the client, with a state check that every added word is in the dictionary configured when the server last pulled its settings; one TCP-mode session and one TCP-mode start with port 4000 in use) and of a worker process that pushes generated documents through all front-ends, the harper.js API and statistics export/import: no socket/connect/send/bind/listen beyond the loopback listener, no resolver/TLS files, no exec, and writes only to the configured dictionary and statistics paths. The dependency-set clause is covered by a static cargo-metadata scan reported as an auxiliary.",
         "strace sees every syscall of the process tree; the dependency scan is a deny-list, not generated-input search.",
         "property-based testing (proptest) of sessions under a syscall monitor (strace); invariant over the syscall history"),
-"C11": ("exploration", "Additivity of rule switches as a metamorphic relation (lints(S) = lints(A)+lints(B), sparse configurations (others absent / null) = dense ones (others false), full singleton decomposition, switching one rule off removes exactly its lints, all-off = nothing), overlay algebra against a map model (fill_with_curated, merge_from, clear, JSON round trip, unknown keys), a stateful check of the whole configuration API on one long-lived linter (map model; lints = fresh linter with the model's switches), the harper.js config path and the harper-ls settings path (published diagnostics and the lints behind its code actions) against the in-process model; configurations range from a few entries to near-complete settings dumps with unknown names.",
+"C11": ("exploration", "Additivity of rule switches as a metamorphic relation (lints(S) = lints(A)+lints(B), sparse configurations (others absent / null) = dense ones (others false), full singleton decomposition, switching one rule off removes exactly its lints, all-off = nothing), overlay algebra against a map model (fill_with_curated, merge_from, clear, JSON round trip, unknown keys), a stateful check of the whole configuration API on one long-lived linter (map model; lints = fresh linter with the model's switches), the harper.js config path (also after further calls on the same Linter: word imports, checks in either language, state reads) and the harper-ls settings path (published diagnostics and the lints behind its code actions) against the in-process model; configurations range from a few entries to near-complete settings dumps with unknown names.",
         "Rules are the distinct configuration keys (iter_keys de-duplicated).",
         "metamorphic + model-based property testing (proptest)"),
 "C12": ("exploration", "Metamorphic relation on generated pairs (P, D): lints(P+D) == lints(P) ++ shift(lints(D), |P|) as sorted multisets over all lint fields, all rules on, plain English.",
@@ -41,7 +41,7 @@ CHECKS = {
 "C13": ("exploration", "All ordered lists of <=3 (thorough 4) spans over 0..=5 exhaustively, random larger lists, and real lint lists of generated documents; oracle = sub-multiset, pairwise conflict-free, every dropped lint starts inside a kept one; on documents additionally back-to-front application equals a reference that splices in original coordinates; the real harper-cli binary on generated files with 0-2 --only-lint-with rules must print exactly a conflict-free selection.",
         "Validity predicate does not prescribe which of two overlapping lints is kept.",
         "property-based testing (proptest) + exhaustive small-scope enumeration; validity-predicate oracle"),
-"C14": ("exploration", "Documents with repeated problems in equal/different neighbourhoods (also next to quotes); ignore a random subset; filter on the same text, after a JSON round trip of the ignore list, and after prepending/appending paragraphs; oracle uses an independent lint identity (fields + texts of tokens within the span and 2 chars around). The same problem in two texts differing right next to it (document start, punctuation, language) may only be hidden when the identity is equal. Through the real harper-ls: ignore one diagnostic, edit elsewhere (new identifiers, comments, prepended lines), differential against a server that ignored nothing.",
+"C14": ("exploration", "Documents with repeated problems in equal/different neighbourhoods (also next to quotes); ignore a random subset; filter on the same text, after a JSON round trip of the ignore list, and after prepending/appending paragraphs; oracle uses an independent lint identity (fields + texts of tokens within the span and 2 chars around). The same problem in two texts differing right next to it (document start, punctuation, language) may only be hidden when the identity is equal. Through the real harper-ls: ignore one diagnostic, edit elsewhere (new identifiers, comments, prepended lines), differential against a server that ignored nothing. Through the harper.js Linter: other calls (same text in the other language, other texts, word imports) between showing a lint and ignoring it; reference = a fresh Linter with the same words.",
         "Only lints 3+ chars away from the edit boundary are judged after an edit.",
         "property-based testing (proptest); round-trip + metamorphic oracle with an independent identity relation"),
 "C15": ("exploration", "Curated FST / mutable / merged back-ends must answer membership, exact membership, metadata, canonical spelling and *_str twins identically; fuzzy search on every dictionary of <=2 (thorough 3) short words over {a,b,B,'} x every query <=3 x bounds x caps exhaustively, random dictionaries and the curated dictionary against brute-force Levenshtein; dictionaries of 40-90-letter words; constructed dictionaries with typographic apostrophes in the stored words: mutable, FST built from it and merged wrappers agree; merged = union (first child wins, an unrestricted entry for the very spelling lifts a dialect restriction).",
